@@ -15,7 +15,7 @@ static void region_init(void)
     mprotect(region, PAGE, PROT_NONE); mprotect(data_hi, PAGE, PROT_NONE);
 }
 
-static long drift_texts, failinj_runs, prealloc_calls, print_calls;
+static long drift_texts, drift_recorded, failinj_runs, prealloc_calls, print_calls;
 static int do_failinject;
 static FILE *driftf;
 
@@ -59,6 +59,7 @@ static int roundtrip_equal(const cJSON *a, const cJSON *b, char *why, size_t wn)
     if (x || y) { snprintf(why, wn, "number of members changed"); return 0; }
     return 1;
 }
+
 static int has_raw(const cJSON *t) { const cJSON *c; if ((t->type & 0xFF) == cJSON_Raw) return 1; for (c = t->child; c; c = c->next) if (has_raw(c)) return 1; return 0; }
 
 /* one text the library produced for tree t: judged against the L2 prediction and, where it differs, against L1 */
@@ -69,7 +70,8 @@ static void judge_text(const char *what, const cJSON *t, int fmt, const char *go
     if (strcmp(got, expect) != 0) {
         /* not the predicted bytes: the text is handed to TLC (strictness, denotation) and checked for the round trip here */
         drift_texts++;
-        if (driftf && drift_texts <= 4000) { const unsigned char *p; fprintf(driftf, "{\"v\":"); jv_print(driftf, jv_at(line, 1)); fprintf(driftf, ",\"fmt\":%s,\"text\":[", fmt ? "true" : "false"); for (p = (const unsigned char*)got; *p; p++) fprintf(driftf, "%s%u", p == (const unsigned char*)got ? "" : ",", *p); fprintf(driftf, "]}\n"); }
+        if (driftf && drift_recorded < 400 && strlen(got) <= 1500 && !has_raw(t)) {      /* a bounded sample goes to the TLA+ grammar; every text gets the round trip below */
+            drift_recorded++; const unsigned char *p; fprintf(driftf, "{\"v\":"); jv_print(driftf, jv_at(line, 1)); fprintf(driftf, ",\"fmt\":%s,\"text\":[", fmt ? "true" : "false"); for (p = (const unsigned char*)got; *p; p++) fprintf(driftf, "%s%u", p == (const unsigned char*)got ? "" : ",", *p); fprintf(driftf, "]}\n"); }
     }
     if (!has_raw(t)) {
         cJSON *back; char *again;
@@ -210,8 +212,8 @@ int vd_print_main(int argc, char **argv)
         vd_tick(); VD.curline = NULL; free(copy);
     }
     if (driftf) fclose(driftf);
-    snprintf(extra, sizeof(extra), "\"print_calls\": %ld, \"preallocated_calls\": %ld, \"texts_differing_from_prediction\": %ld, \"failinject_runs\": %ld, \"other_property_violations\": %ld",
-             print_calls, prealloc_calls, drift_texts, failinj_runs, VD.by_kind[0]);
+    snprintf(extra, sizeof(extra), "\"print_calls\": %ld, \"preallocated_calls\": %ld, \"texts_differing_from_prediction\": %ld, \"texts_sent_to_tla_grammar\": %ld, \"failinject_runs\": %ld, \"other_property_violations\": %ld",
+             print_calls, prealloc_calls, drift_texts, drift_recorded, failinj_runs, VD.by_kind[0]);
     if (stats) vd_write_stats(stats, extra);
     return VD.violations ? 1 : 0;
 }
